@@ -80,3 +80,223 @@ Proof.
   unfold current_order, current_verdict. cbv [TimerQueue_addTimer_reads_seq_after_handoff].
   first [ exact (ex_intro _ witness pinned_order_uaf) | exact fixed_order_valid ].
 Qed.
+
+(* ================================================================== same-batch cancel (TimerModel) *)
+From Coq Require Import ZArith Lia Sorted Arith Permutation.
+From Muduo Require Import Gen_Consts Gen_C06 C06_Model C06_Proofs C06_Hist.
+Local Open Scope Z_scope.
+
+(* cancelingTimers_ only grows while the callbacks of a batch run *)
+Lemma cb_step_canceling : forall st c st' ev, cb_step st c = Ok (st', ev) ->
+  forall k, In k (canceling st) -> In k (canceling st').
+Proof.
+  intros st c st' ev H k Hk. destruct c as [d|w iv a|a s|w iv a|a s]; cbn [cb_step] in H.
+  - destruct (d <? 0); inversion H; subst. exact Hk.
+  - destruct (alloc st w iv a) as [[st1 s]| |] eqn:EA; cbn [bind] in H; try discriminate.
+    destruct (add_in_loop st1 a) as [[st2 e]| |] eqn:EL; cbn [bind] in H; try discriminate.
+    inversion H; subst. destruct (alloc_shape _ _ _ _ _ _ EA) as (_ & _ & _ & _ & _ & _ & Ec & _).
+    destruct (add_in_loop_shape _ _ _ _ EL) as (_ & _ & _ & _ & Ec2 & _). rewrite Ec2, Ec. exact Hk.
+  - destruct (cancel_in_loop st a s) as [st1| |] eqn:EC; cbn [bind] in H; try discriminate. inversion H; subst.
+    unfold cancel_in_loop in EC. destruct (assert (sizes_agree st)); cbn [bind] in EC; try discriminate.
+    destruct (kmem (a, s) (active st)).
+    + destruct (deref st a) as [o| |]; cbn [bind] in EC; try discriminate.
+      destruct (kerase _ (timers st)); try discriminate. destruct (kerase _ (active st)); try discriminate.
+      inversion EC; subst. exact Hk.
+    + destruct (calling st); inversion EC; subst; [|exact Hk]. cbn. apply kadd_in. auto.
+  - destruct (alloc st w iv a) as [[st1 s]| |] eqn:EA; cbn [bind] in H; try discriminate. inversion H; subst.
+    destruct (alloc_shape _ _ _ _ _ _ EA) as (_ & _ & _ & _ & _ & _ & Ec & _). cbn. rewrite Ec. exact Hk.
+  - inversion H; subst. exact Hk.
+Qed.
+Lemma cb_run_canceling : forall cs st st' ev, cb_run st cs = Ok (st', ev) ->
+  forall k, In k (canceling st) -> In k (canceling st').
+Proof.
+  induction cs as [|c r IH]; intros st st' ev H k Hk; cbn [cb_run] in H.
+  - inversion H; subst; auto.
+  - destruct (cb_step st c) as [[st1 e1]| |] eqn:E1; try discriminate.
+    + destruct (cb_run st1 r) as [[st2 e2]| |] eqn:E2; cbn [bind] in H; try discriminate.
+      inversion H; subst. eapply IH; eauto. eapply cb_step_canceling; eauto.
+    + destruct (cb_run st r) as [[st2 e2]| |] eqn:E2; cbn [bind] in H; try discriminate.
+      inversion H; subst. eauto.
+Qed.
+Lemma run_cbs_canceling : forall ex st script now st' ev, run_cbs st ex script now = Ok (st', ev) ->
+  forall k, In k (canceling st) -> In k (canceling st').
+Proof.
+  induction ex as [|[d b] ex IH]; intros st script now st' ev H k Hk; cbn [run_cbs] in H.
+  - inversion H; subst; auto.
+  - destruct (deref st b) as [ob| |]; cbn [bind] in H; try discriminate.
+    destruct (cb_run st (hd [] script)) as [[st1 e1]| |] eqn:E1; cbn [bind] in H; try discriminate.
+    destruct (run_cbs st1 ex (tl script) now) as [[st2 e2]| |] eqn:E2; cbn [bind] in H; try discriminate.
+    inversion H; subst. eapply IH; eauto. eapply cb_run_canceling; eauto.
+Qed.
+
+(* a cancel of an expired (detached) timer issued by a callback of the batch is recorded *)
+Lemma cancel_detached : forall st a s, Inv st -> det st a -> calling st = true ->
+  cb_step st (CCancel a s) = Ok (set_canceling st (kadd (a, s) (canceling st)), []).
+Proof.
+  intros st a s I Db C. cbn [cb_step]. unfold cancel_in_loop. rewrite (sizes_agree_inv _ I). cbn [assert bind].
+  destruct (kmem (a, s) (active st)) eqn:KM; [apply kmem_iff in KM; exfalso; exact (det_not_active st a s I Db KM)|].
+  rewrite C. reflexivity.
+Qed.
+Lemma cb_run_cancel_marks : forall cs st X st' ev a s, Inv st -> DInv st (X ++ padds (pending st)) -> In a X ->
+  calling st = true -> In (CCancel a s) cs -> cb_run st cs = Ok (st', ev) -> In (a, s) (canceling st').
+Proof.
+  induction cs as [|c r IH]; intros st X st' ev a s I D Ha C Hc H; [contradiction|]. cbn [cb_run] in H.
+  assert (Db : det st a) by (apply (proj2 D); apply in_or_app; auto).
+  pose proof (cb_step_good st c X I D) as G1.
+  destruct Hc as [->|Hc].
+  - rewrite (cancel_detached st a s I Db C) in H.
+    destruct (cb_run _ r) as [[st2 e2]| |] eqn:E2; cbn [bind] in H; try discriminate. inversion H; subst.
+    eapply cb_run_canceling; [exact E2|]. cbn. apply kadd_in. auto.
+  - destruct (cb_step st c) as [[st1 e1]| |] eqn:E1; try discriminate.
+    + destruct (cb_run st1 r) as [[st2 e2]| |] eqn:E2; cbn [bind] in H; try discriminate.
+      inversion H; subst. destruct G1 as (I1 & D1 & _ & C1). cbn [fst] in *.
+      eapply IH; eauto; congruence.
+    + destruct (cb_run st r) as [[st2 e2]| |] eqn:E2; cbn [bind] in H; try discriminate.
+      inversion H; subst. eapply IH; eauto.
+Qed.
+
+Lemma run_cbs_cancel_marks : forall ex st script now X st' ev a s i g,
+  Inv st -> DInv st (X ++ padds (pending st)) -> incl (map snd ex) X -> In a X -> calling st = true ->
+  nth_error script i = Some g -> (i < length ex)%nat -> In (CCancel a s) g ->
+  run_cbs st ex script now = Ok (st', ev) -> In (a, s) (canceling st').
+Proof.
+  induction ex as [|[d b] ex IH]; intros st script now X st' ev a s i g I D Sub Ha C Hn Hi Hc H; cbn [length] in Hi; [lia|].
+  cbn [run_cbs] in H.
+  destruct (deref st b) as [ob| |]; cbn [bind] in H; try discriminate.
+  destruct (cb_run st (hd [] script)) as [[st1 e1]| |] eqn:E1; cbn [bind] in H; try discriminate.
+  destruct (run_cbs st1 ex (tl script) now) as [[st2 e2]| |] eqn:E2; cbn [bind] in H; try discriminate.
+  inversion H; subst st2 ev; clear H.
+  pose proof (cb_run_good (hd [] script) st X I D) as G1. rewrite E1 in G1. destruct G1 as (I1 & D1 & _ & C1). cbn [fst] in *.
+  destruct i as [|j].
+  - destruct script as [|g0 rest]; cbn [nth_error] in Hn; [discriminate|]. inversion Hn; subst g0. cbn [hd] in E1.
+    eapply run_cbs_canceling; [exact E2|]. exact (cb_run_cancel_marks g st X st1 e1 a s I D Ha C Hc E1).
+  - destruct script as [|g0 rest]; cbn [nth_error] in Hn; [discriminate|]. cbn [tl] in E2.
+    assert (Sub' : incl (map snd ex) X) by (intros x Hx; apply Sub; right; auto).
+    assert (C1' : calling st1 = true) by congruence.
+    assert (Hj : (j < length ex)%nat) by lia.
+    exact (IH st1 rest now X st' e2 a s j g I1 D1 Sub' Ha C1' Hn Hj Hc E2).
+Qed.
+
+(* TimerQueue::reset deletes an expired timer whose id is in cancelingTimers_ (repeater or not) *)
+Lemma reset_loop_cancelled : forall ex st now P st' a o, Inv st -> DInv st (map snd ex ++ P) -> (ex <> [] -> 0 < now) ->
+  In a (map snd ex) -> hget a (heap st) = Some o -> In (a, o_seq o) (canceling st) ->
+  reset_loop st ex now = Ok st' -> gone st' (o_seq o).
+Proof.
+  induction ex as [|[d b] ex IH]; intros st now P st' a o I D Pn Ha G Hc H; [contradiction|]. cbn [reset_loop] in H.
+  cbn [map snd app] in D. destruct D as [N Dt]. inversion N as [|x l NIb N']; subst.
+  destruct (Dt b (or_introl eq_refl)) as [[ob [Gb Po]] NDb].
+  assert (Pnow : 0 < now) by (apply Pn; discriminate).
+  unfold deref in H. rewrite Gb in H. cbn [bind] in H.
+  destruct (Z.eq_dec b a) as [->|Nab].
+  - rewrite G in Gb. inversion Gb; subst ob. apply kmem_iff in Hc. rewrite Hc, andb_false_r in H.
+    eapply reset_loop_gone; [exact H|]. unfold gone, gonec. cbn. split; [apply (i_hp _ _ _ _ I) in G; lia|].
+    intros c p Gc Eq. destruct (Z.eq_dec a c) as [->|Nc]; [rewrite hget_hdel_same in Gc; discriminate|].
+    rewrite hget_hdel_other in Gc by auto. apply Nc. eapply (i_sq _ _ _ _ I); eauto.
+  - cbn [map snd In] in Ha. destruct Ha as [Ha|Ha]; [congruence|].
+    destruct (o_repeat ob && negb (kmem (b, o_seq ob) (canceling st))) eqn:Br.
+    + apply andb_true_iff in Br as [Rp _]. unfold o_repeat in Rp. apply Z.ltb_lt in Rp.
+      set (o' := mkT (o_seq ob) (now + o_iv ob) (o_iv ob)) in *.
+      set (st1 := set_heap st (hput b o' (heap st))) in *.
+      assert (I1 : Inv st1) by (apply inv_hput_det; auto).
+      assert (G1 : hget b (heap st1) = Some o') by (apply hget_hput_same).
+      assert (P1 : 0 < o_exp o') by (cbn; lia).
+      destruct (insert_shape st1 b o' I1 G1 NDb P1) as (t' & a' & E & I2 & M & _).
+      rewrite E in H. cbn [bind] in H.
+      assert (D2 : DInv (set_sets st1 t' a') (map snd ex ++ P)).
+      { split; auto. intros c Hc'. assert (b <> c) by (intros ->; auto).
+        destruct (Dt c (or_intror Hc')) as [[oc [Gc Pc]] NDc]. split.
+        - exists oc. unfold st1. cbn [heap set_sets set_heap]. rewrite hget_hput_other; auto.
+        - intros d' Hd'. cbn in Hd'. apply M in Hd' as [Eq|Hd']; [inversion Eq; congruence| eapply NDc; eauto]. }
+      eapply (IH (set_sets st1 t' a') now P st' a o I2 D2 (fun _ => Pnow) Ha); [| |exact H].
+      * unfold st1. cbn [heap set_sets set_heap]. rewrite hget_hput_other; auto.
+      * exact Hc.
+    + set (st1 := set_heap st (hdel b (heap st))) in *.
+      assert (I1 : Inv st1) by (apply inv_hdel_det; auto).
+      assert (D1 : DInv st1 (map snd ex ++ P)).
+      { split; auto. intros c Hc'. assert (b <> c) by (intros ->; auto).
+        cbn. apply detc_hdel with (ts := timers st); auto. apply Dt. right; auto. }
+      eapply (IH st1 now P st' a o I1 D1 (fun _ => Pnow) Ha); [| |exact H].
+      * unfold st1. cbn [heap set_heap]. rewrite hget_hdel_other; auto.
+      * exact Hc.
+Qed.
+
+(* in one expiry every sequence number runs at most once *)
+Lemma filter_none : forall (l : list key) (f : key -> Z) (now s : Z), (forall k, In k l -> f k <> s) ->
+  filter (fun r : Z * Z * Z => (fst (fst r) =? s)%Z) (map (fun k => (f k, fst k, now)) l) = [].
+Proof.
+  induction l as [|k l IH]; intros f now s H; cbn [map filter fst]; auto.
+  destruct (Z.eqb_spec (f k) s); [exfalso; eapply H; [left|]; eauto|]. apply IH. intros k' Hk'. apply H. right; auto.
+Qed.
+Lemma count_map_le1 : forall (l : list key) (f : key -> Z) (now s : Z), NoDup l ->
+  (forall k k', In k l -> In k' l -> f k = s -> f k' = s -> k = k') ->
+  (length (filter (fun r : Z * Z * Z => (fst (fst r) =? s)%Z) (map (fun k => (f k, fst k, now)) l)) <= 1)%nat.
+Proof.
+  induction l as [|k l IH]; intros f now s N U; cbn [map filter fst length]; [lia|].
+  apply NoDup_cons_iff in N as [NI N]. destruct (Z.eqb_spec (f k) s) as [E|NE].
+  - rewrite filter_none; [cbn; lia|]. intros k' Hk' E'. assert (k = k') by (apply U; auto; [left|right]; auto).
+    subst. contradiction.
+  - apply IH; auto. intros k1 k2 H1 H2. apply U; right; auto.
+Qed.
+Lemma fire_once : forall c ops st evs script st' ev s, run (init c) ops = Ok (st, evs) ->
+  fire st script = Ok (st', ev) -> (length (runs_of s ev) <= 1)%nat.
+Proof.
+  intros c ops st evs script st' ev s H HF.
+  destruct (fire_runs_due _ _ _ _ _ _ _ H HF) as (RL & Sd & DI & _). destruct (reach_top _ _ _ _ H) as (I & _).
+  assert (E : Z.of_nat (length (runs_of s ev)) = nruns s ev) by (symmetry; apply nruns_filter).
+  rewrite nruns_rlog, RL in E. apply Nat2Z.inj in E. rewrite E.
+  apply count_map_le1; [apply Srt_NoDup; auto|].
+  intros [d1 a1] [d2 a2] H1 H2 E1 E2. cbn [snd] in *. apply DI in H1 as [H1 _]. apply DI in H2 as [H2 _].
+  destruct (i_ta _ _ _ _ I _ _ H1) as (o1 & G1 & X1 & _). destruct (i_ta _ _ _ _ I _ _ H2) as (o2 & G2 & X2 & _).
+  unfold seqof in E1, E2. rewrite G1 in E1. rewrite G2 in E2.
+  assert (a1 = a2) by (eapply (i_sq _ _ _ _ I); eauto; congruence). subst a2.
+  rewrite G1 in G2. inversion G2; subst o2. congruence.
+Qed.
+
+(* Same-batch cancel.  A timer (repeater or one-shot) that is due in an expiry and whose id is
+   cancelled by ANY callback of that expiry (its own: self-cancel; an earlier or a later sibling) runs
+   exactly the one invocation that was already due, is deleted by TimerQueue::reset instead of being
+   re-inserted, and is dead afterwards. *)
+Lemma same_batch_cancel : forall c ops st evs script st' ev d a o i g,
+  run (init c) ops = Ok (st, evs) -> fire st script = Ok (st', ev) ->
+  In (d, a) (timers st) -> d <= clk st -> hget a (heap st) = Some o ->
+  nth_error script i = Some g -> (i < length (due st))%nat -> In (CCancel a (o_seq o)) g ->
+  gone st' (o_seq o) /\ ~ In (a, o_seq o) (active st') /\
+  (exists t, In (ERun (o_seq o) d (clk st) t) ev) /\ length (runs_of (o_seq o) ev) = 1%nat.
+Proof.
+  intros c ops st evs script st' ev d a o i g H HF Hi Le G Hn Hlt Hc.
+  pose proof (reach_top _ _ _ _ H) as T. pose proof T as (I & _).
+  destruct (fire_decomp _ _ _ _ T HF) as (ex & rest & act & st4 & evs' & st6 & KS & Eapp & Lex & I3 & D3 & ER & I4 & D4 & C4 & EL & I6 & Eh & Et & Ea & En & _).
+  assert (Edue : due st = ex) by (unfold due; rewrite KS; reflexivity).
+  assert (Hex : In (d, a) ex) by (rewrite <- Edue; apply due_iff; auto).
+  assert (HaX : In a (map snd ex)) by (apply in_map_iff; exists (d, a); auto).
+  destruct (consume_same st) as (Eh0 & _ & _ & En0 & _).
+  set (st3 := set_canceling (set_calling (set_sets (consume st) rest act) true) []) in *.
+  assert (Mk : In (a, o_seq o) (canceling st4)).
+  { eapply (run_cbs_cancel_marks ex st3 script (clk st) (map snd ex) st4 evs' a (o_seq o) i g); eauto.
+    - apply incl_refl.
+    - rewrite <- Edue. exact Hlt. }
+  assert (G4 : hget a (heap st4) = Some o).
+  { assert (F : hget a (heap st4) = hget a (heap st3)).
+    { assert (H3 : HI noR st3 evs) by (eapply HI_same; [| |exact (reach_hist _ _ _ _ H)]; unfold st3; cbn; auto).
+      assert (NDex : NoDup (map snd ex)) by (destruct D3 as [N _]; apply NoDup_app_l in N; auto).
+      assert (Hex0 : forall d0 a0, In (d0, a0) ex -> exists o0, hget a0 (heap st3) = Some o0 /\ o_exp o0 = d0).
+      { intros d0 a0 Hi0. destruct (i_ta _ _ _ _ I d0 a0) as (o0 & G0 & E0 & _); [rewrite Eapp; apply in_or_app; auto|].
+        exists o0. split; auto. cbn. rewrite Eh0. auto. }
+      destruct (run_cbs_hist ex st3 script (clk st) (map snd ex) noR evs st4 evs' I3 D3 (incl_refl _)
+                  (fun b (F : noR b) => match F with end) NDex (fun b _ (F : noR b) => F) Hex0 H3 ER) as (_ & _ & Fr).
+      apply Fr; auto. }
+    rewrite F. cbn. rewrite Eh0. auto. }
+  assert (Pn : ex <> [] -> 0 < clk st).
+  { destruct ex as [|[d1 a1] ex']; [congruence|]. intros _.
+    assert (0 < d1) by (eapply (i_pos _ _ _ _ I); rewrite Eapp; left; eauto).
+    pose proof (Lex d1 a1 (or_introl eq_refl)). lia. }
+  assert (G6 : gone st6 (o_seq o)).
+  { eapply (reset_loop_cancelled ex (set_calling st4 false) (clk st) (padds (pending st4)) st6 a o); eauto. }
+  assert (Gn : gone st' (o_seq o)) by (unfold gone in *; rewrite Eh, En; exact G6).
+  pose proof (fire_good st script T) as GT. rewrite HF in GT. cbn [good fst] in GT. destruct GT as (I' & _).
+  destruct (none_lost _ _ _ _ _ _ _ H HF _ _ Hi Le) as (o2 & t & G2 & HR). rewrite G in G2. inversion G2; subst o2.
+  splits; auto.
+  - intros HA. destruct (i_at _ _ _ _ I' _ _ HA) as (o' & G' & Es & _). destruct Gn as [_ Gn]. eapply Gn; eauto.
+  - eauto.
+  - pose proof (fire_once _ _ _ _ _ _ _ (o_seq o) H HF). pose proof (nruns_in _ _ _ _ _ HR) as Ge. rewrite nruns_filter in Ge. lia.
+Qed.
